@@ -2,7 +2,7 @@
 E4: per kind every subset of the optional keys x value forms (int / float scalars, list, 1-D / 2-D table where allowed) x [limits] present / absent;
 differential oracle against Kind(name, **P, limits=L) through params(limits=True) and a solved probe system; every mandatory key removed -> KeyError;
 every key given every wrong type -> ValueError (all kinds but LinReg)."""
-import itertools, copy, os, tempfile, shutil
+import itertools, copy, os, tempfile, shutil, json
 import toml
 from ..common import workdir as _wd, cleanup_workdir as _cw, Run, Res, seed, quiet_call, VERIF
 from ..sysmodel import KINDS, LOADS, observe
@@ -40,7 +40,7 @@ def workdir():
     return _wd()
 
 
-def write_toml(section, params, limits, extra_tables=False, permute=False):
+def write_toml(section, params, limits, extra_tables=False, permute=False, inline=False):
     if permute:  # inner keys of a table parameter in another legal order (z, io, vi)
         params = {k: ({kk: v[kk] for kk in sorted(v, key=lambda x: {"vi": 2, "io": 1}.get(x, 0))} if isinstance(v, dict) else v) for k, v in params.items()}
     doc = {}
@@ -52,8 +52,20 @@ def write_toml(section, params, limits, extra_tables=False, permute=False):
     if limits is not None:
         doc["limits"] = limits
     path = os.path.join(workdir(), "c.toml")
+    if inline:   # table parameters written as TOML inline tables:  ig = { vi = [...], io = [...], ig = [[...]] }
+        lines = []
+        for sec, body in doc.items():
+            lines.append("[%s]" % sec)
+            for k, v in body.items():
+                if isinstance(v, dict):
+                    lines.append("%s = { %s }" % (k, ", ".join("%s = %s" % (kk, json.dumps(vv)) for kk, vv in v.items())))
+                else:
+                    lines.append(toml.dumps({k: v}).strip())
+        text = "\n".join(lines) + "\n"
+    else:
+        text = toml.dumps(doc)
     with open(path, "w") as f:
-        f.write(toml.dumps(doc))
+        f.write(text)
     return path
 
 
@@ -105,7 +117,7 @@ def check_case(case):
     fam = case["fam"]
     res.stats["evaluations"] += 1
     if fam == "equiv":
-        path = write_toml(section, P, L, extra_tables=case.get("extra", False), permute=case.get("permute", False))
+        path = write_toml(section, P, L, extra_tables=case.get("extra", False), permute=case.get("permute", False), inline=case.get("inline", False))
         try:
             c1 = KINDS[kind].from_file("X", fname=path)
         except Exception as e:
@@ -176,6 +188,8 @@ def gen_cases(tier):
                     yield dict(fam="equiv", kind=kind, P=P, L=LIMITS if full else None)
                     if isinstance(fv, dict):
                         yield dict(fam="equiv", kind=kind, P=P, L=None, permute=True)
+                        if len(fv["vi"]) == 1:   # toml 0.10.2 itself cannot parse a multi-row nested array inside an inline table
+                            yield dict(fam="equiv", kind=kind, P=P, L=LIMITS, inline=True)
         if tier != "quick":  # pairs of alternative forms
             allk = list(mand.items()) + list(opt.items())
             for (k1, f1), (k2, f2) in itertools.combinations(allk, 2):
